@@ -157,6 +157,40 @@ def termBrokenInv (fs : FS) (a : String) : Bool :=
   | .apply range => termBroken fs inv.cfg range
   | _ => false
 
+/-- Class of the known finding `dir-file-swap`: some file patch of the range names a path that is a
+directory in the tree the invocation starts from, or lies below a regular file of that tree.  The driver
+looks at the disk when it loads such a name: even if earlier patches of the same invocation have (in
+memory) emptied that directory / removed that file, the load fails with EISDIR / ENOTDIR and the push is
+refused, whereas the same patches pushed by separate invocations succeed. -/
+def dirFileSwap (fs : FS) (cfg : Cfg) (range : List Series.Entry) : Bool :=
+  range.any (fun entry =>
+    match patchKey cfg entry.name with
+    | none => false
+    | some pk =>
+      match fs.readFile pk with
+      | .error _ => false
+      | .ok (bytes, _) =>
+        match Parse.parsePatch bytes entry.strip false with
+        | .error _ => false
+        | .ok patch => patch.fps.any (fun fp =>
+            ((match fp.old with | some n => [n] | none => []) ++ (match fp.new with | some n => [n] | none => [])).any (fun n =>
+              match safeKey n with
+              | some k => (k != [] && fs.lookup k == some Node.dir) || fs.fileOnPath k
+              | none => false)))
+
+def dirFileSwapInv (fs : FS) (a : String) : Bool :=
+  let inv := parseArgs (if a == "-" then [] else a.splitOn " ") ()
+  match plan inv.cfg fs with
+  | .apply range => dirFileSwap fs inv.cfg range
+  | _ => false
+
+/-- the class of known finding the invocation falls in, if its outcome differs from the specification.
+`refused`: the implementation exited with status 1 and left the tree as it was. -/
+def knownClass (fs : FS) (a : String) (refused : Bool) : Option String :=
+  if termBrokenInv fs a then some "unterminated-line-mid-file"
+  else if refused && dirFileSwapInv fs a then some "dir-file-swap"
+  else none
+
 /-- `pushSpec` evaluated against the implementation: starting from the tree the implementation left
 after the previous invocation, the exit status and the whole resulting tree must be what the
 specification says -/
@@ -166,11 +200,11 @@ def specVerdict (fs0 : FS) (invs impl : List String) : String := Id.run do
     let inv := parseArgs (if a == "-" then [] else a.splitOn " ") ()
     let sp := Spec.pushSpec inv.cfg fs
     let implTree := fieldOf r "tree"
-    let known := termBrokenInv fs a
+    let known := knownClass fs a (fieldOf r "exit" == "1" && implTree == renderTree fs)
     if fieldOf r "exit" != toString sp.exit then
-      return (if known then "KNOWN:unterminated-line-mid-file" else s!"FAIL:exit(spec={sp.exit})")
+      return (match known with | some c => s!"KNOWN:{c}" | none => s!"FAIL:exit(spec={sp.exit})")
     if implTree != renderTree sp.fs then
-      return (if known then "KNOWN:unterminated-line-mid-file" else s!"FAIL:tree spectree={renderTree sp.fs}")
+      return (match known with | some c => s!"KNOWN:{c}" | none => s!"FAIL:tree spectree={renderTree sp.fs}")
     fs := parseTree implTree
   return "ok"
 
@@ -316,7 +350,11 @@ def stepF (fields : List String) : String :=
     let c18 :=
       if fieldOf impl "exit" == "101" then "FAIL:crash"
       else if fieldOf impl "exit" != "1" then "FAIL:reported-success"
-      else if appliedAfter != appliedBefore then "FAIL:recorded-as-applied"
+      -- (a short write to .pc/applied-patches itself leaves a torn record: by then every file of the
+      -- patches being recorded has been written, so nothing that was not saved is recorded — but the
+      -- old content must still be there)
+      else if appliedAfter != appliedBefore &&
+          !(fieldOf impl "op" == "write:2e70632f6170706c6965642d70617463686573" && appliedBefore.isPrefixOf appliedAfter) then "FAIL:recorded-as-applied"
       else if fieldOf impl "msg" != "1" then "FAIL:message-does-not-name-the-file"
       else "ok"
     s!"{cid} eq={boolS (m == i)} C18={c18} model={m}"
